@@ -206,6 +206,9 @@ def finish(rep, meta, t0, explanation, assumptions, nd):
         print('KNOWN-FINDING: property=%s %s %s at %s: %s' % (rep.prop, o['clause'], o['function'], o['loc'], o['detail']))
     replay_dir = os.path.join(VERIF, '.work', 'replay')
     os.makedirs(replay_dir, exist_ok=True)
+    for old_rp in os.listdir(replay_dir):          # replay records of an earlier run of this property are stale
+        if old_rp.startswith(rep.prop + '-') and old_rp.endswith('.json'):
+            os.unlink(os.path.join(replay_dir, old_rp))
     for i, o in enumerate(viol):
         rp = os.path.join(replay_dir, '%s-%d.json' % (rep.prop, i))
         with open(rp, 'w') as f:
